@@ -563,7 +563,7 @@ func TestVerif(t *testing.T) {
 		h.runConfig(k.Cfg, []Case{k})
 	} else {
 		cfgs := configs()
-		per := c.N(30, 400)
+		per := c.N(20, 400)
 		okPlan := socksrun.DialPlan{Kind: "ok", BindIP: []byte{10, 0, 0, 1}, BindPort: 4242}
 		var everAccepted []Warm // pairs some earlier configuration of this process accepts
 		for ci, ac := range cfgs {
@@ -620,6 +620,16 @@ func TestVerif(t *testing.T) {
 				}
 				for _, cr := range right {
 					everAccepted = append(everAccepted, Warm{Cfg: ac, User: cr.User, Pass: cr.Pass})
+				}
+			}
+			// field-length boundaries (ULEN x PLEN grid, NMETHODS, domain lengths) on one configuration of each kind
+			if ci == 0 || ci == 5 || ci == 6 || c.Thorough() {
+				var vc *socksrun.Cred
+				if rp := rightPairs(ac); ac.Enabled && len(rp) > 0 {
+					vc = &rp[0]
+				}
+				for _, bs := range socksrun.BoundarySessions(vc, ac.Enabled) {
+					fixedCase(bs)
 				}
 			}
 			for i := 0; i < per; i++ {
